@@ -489,6 +489,7 @@ partial def loop (stdin : IO.FS.Stream) (stdout : IO.FS.Stream) (memo : Memo) : 
   if line.isEmpty then return ()
   let (memo', out) := handle memo line
   stdout.putStrLn out
+  stdout.flush
   loop stdin stdout memo'
 
 end Drv
